@@ -266,7 +266,12 @@ fn variant_struct_name(goenv: &GlobalGoEnv, enum_name: &str, variant_name: &str)
             }
         }
     }
-    if count > 1 {
+    // A variant struct lives in the same Go package scope as every enum interface and every
+    // struct type, so a variant spelled like one of those types (`enum Foo { Foo }`) must be
+    // qualified as well, otherwise two declarations share one name.
+    let clashes_with_type = goenv.enums().any(|(name, _)| name.0 == variant_name)
+        || goenv.structs().any(|(name, _)| name.0 == variant_name);
+    if count > 1 || clashes_with_type {
         format!("{}_{}", go_ident(enum_name), go_ident(variant_name))
     } else {
         go_ident(variant_name)
